@@ -142,6 +142,8 @@ def items(tier):
                 out.append(dict(kind="history", id="n2-%s-patternchange-%s-to-%s" % (mclass, "".join("%d%d" % tuple(p) for p in za) or "none",
                                                                                       "".join("%d%d" % tuple(p) for p in zb) or "none"),
                                 n=2, mclass=mclass, zeros=za, zeros2=zb, hist=hname, tol=0))
+    for which in ("herm-block+complex-diagonal", "sym-block+complex-diagonal"):
+        out.append(dict(kind="flags", id="flags-n3-%s" % which, n=3, which=which))
     # LinSolve handing class flags to the wrapper it creates (the user's flags must not be turned into untrue ones)
     for mclass, flagsets in (("general", [{}]), ("symmetric", [{}, dict(symmetric=True), dict(hermitian=True)]),
                              ("hermitian", [{}, dict(hermitian=True)]), ("complex-symmetric", [{}, dict(symmetric=True)]),
@@ -296,7 +298,55 @@ def sc_wraps(V, P, cfg):
     return obs
 
 
+def sc_flags(V, P, cfg):
+    """update() on a structured complex matrix with auto-detected class flags: the flags the wrapper settles on must be true of
+    the WHOLE matrix (decoupled dofs included: their diagonal entries take part in the adjoint modes)."""
+    from pymoto.solvers import LDAWrapper
+    which = cfg["which"]
+    r0, r1 = V.real("r0", nonzero=True, default=2.0), V.real("r1", nonzero=True, default=3.0)
+    z = V.cplx("z")
+    d = V.cplx("d")
+    if V.symbolic:
+        V.assume((z.re * z.re + z.im * z.im) > 0)
+        V.assume(z.im != 0, "coupling with a non-zero imaginary part (Hermitian block that is not symmetric)")
+        V.assume(d.im != 0, "decoupled dof with a non-real diagonal entry")
+        V.assume((d.re * d.re + d.im * d.im) > 0)
+        V.assume(r0 * r1 - (z.re * z.re + z.im * z.im) != 0, "coupled block non-singular")
+        zero, cz = C(R.of(0), R.of(0)), (lambda r: C(r, R.of(0)))
+        zc = z.conjugate()
+    else:
+        zero, cz, zc = 0j, complex, np.conj(z)
+    if which == "herm-block+complex-diagonal":
+        rows = [[cz(r0), z, zero], [zc, cz(r1), zero], [zero, zero, d]]
+    else:       # "sym-block+complex-diagonal": complex symmetric block, decoupled complex diagonal (symmetric, not Hermitian)
+        rows = [[cz(r0), z, zero], [z, cz(r1), zero], [zero, zero, d]]
+    A = np.array(rows, dtype=object if V.symbolic else complex)
+    if V.symbolic:
+        from symx.oracles import ContractSolver
+        A = wrap(A)
+        inner = ContractSolver()
+    else:
+        inner = _CountingAuto()
+    w = LDAWrapper(inner)
+    w.update(A)
+    from .common import NumProver
+    Pn = P if P is not None else NumProver()
+    At = np.asarray(A).T
+    Ah = wrap(At.copy()).conj() if V.symbolic else At.conj()
+    if w.symmetric is not None and bool(w.symmetric):
+        Pn.arrays_eq("wrapper.symmetric-flag-is-true-of-the-matrix", np.asarray(A), At, kind="class-flags")
+    if w.hermitian is not None and bool(w.hermitian):
+        Pn.arrays_eq("wrapper.hermitian-flag-is-true-of-the-matrix", np.asarray(A), np.asarray(Ah), kind="class-flags")
+    Pn.holds("flags-detected", w.symmetric is not None and w.hermitian is not None, kind="class-flags")
+    obs = dict(sym=float(bool(w.symmetric)), herm=float(bool(w.hermitian)))
+    if P is None:
+        obs["_num"] = Pn
+    return obs
+
+
 def scenario(V, P, cfg):
+    if cfg.get("kind") == "flags":
+        return sc_flags(V, P, cfg)
     if cfg.get("kind") == "rounding-regression":
         return sc_rounding_regression(V, P, cfg)
     if cfg.get("kind") == "wraps":
@@ -513,6 +563,9 @@ def replay(cfg, label, env, case):
     import pymoto as pym
     from pymoto.solvers import LDAWrapper
     V = Vals(env=env)
+    if cfg.get("kind") == "flags":
+        obs = sc_flags(V, None, cfg)
+        return obs["_num"].verdict(label)
     rec = _Rec()
     if label.startswith("exception:"):
         try:
